@@ -327,6 +327,37 @@ func clampedRole(p *pkgInfo, fn *ast.FuncDecl, anchor, legacy string, vars map[s
 	return clamped(p, fn, name, vars, tok)
 }
 
+// roleDuration: the duration passed as idx-th argument to one of callees in fn, as a function of the configuration: a local
+// with the clamp pattern, a local defined by a helper, or the helper call itself.
+func roleDuration(p *pkgInfo, fn *ast.FuncDecl, callees []string, idx int, legacy string, vars map[string]string, tok token.Token) string {
+	var arg ast.Expr
+	ast.Inspect(fn.Body, func(n ast.Node) bool {
+		if c, ok := n.(*ast.CallExpr); ok && arg == nil && len(c.Args) > idx {
+			for _, cal := range callees {
+				if callName(c) == cal {
+					arg = c.Args[idx]
+				}
+			}
+		}
+		return arg == nil
+	})
+	if call, ok := arg.(*ast.CallExpr); ok && len(call.Args) == 0 {
+		if sel, ok := call.Fun.(*ast.SelectorExpr); ok && fn.Recv != nil {
+			for full, fd := range p.funcs {
+				if strings.HasSuffix(full, "."+sel.Sel.Name) && fd.Recv != nil && fd.Body != nil &&
+					recvName(fd.Recv.List[0].Type) == recvName(fn.Recv.List[0].Type) {
+					return compileZ(p, fd, vars)
+				}
+			}
+		}
+	}
+	name := ""
+	if id, ok := arg.(*ast.Ident); ok {
+		name = id.Name
+	}
+	return clampedRole(p, fn, name, legacy, vars, tok)
+}
+
 func tryClamped(p *pkgInfo, fn *ast.FuncDecl, name string, vars map[string]string, tok token.Token) (out string, ok bool) {
 	defer func() {
 		if r := recover(); r != nil {
@@ -408,7 +439,7 @@ func genGuards(p *pkgInfo) string {
 	hb := p.fn("kvElection.heartbeatLoop")
 	hv := map[string]string{".cfg.HeartbeatInterval": "H", ".cfg.MaxConsecutiveFailures": "m"}
 	b.WriteString("(* " + p.pos(hb) + " *)\n")
-	b.WriteString("Definition gen_hb_update_timeout (H : Z) : Z := " + clampedRole(p, hb, argIdent(hb, []string{"time.After", "time.NewTimer"}, 0), "updateTimeout", hv, token.DEFINE) + ".\n")
+	b.WriteString("Definition gen_hb_update_timeout (H : Z) : Z := " + roleDuration(p, hb, []string{"time.After", "time.NewTimer"}, 0, "updateTimeout", hv, token.DEFINE) + ".\n")
 	// the comparison that guards the call of handleHeartbeatFailure: <count> >= <threshold>, both local variables
 	hbc := guardedBy(hb, "handleHeartbeatFailure")
 	if hbc == nil {
@@ -437,7 +468,7 @@ func genGuards(p *pkgInfo) string {
 
 	dh := p.fn("disconnectHandler.handleDisconnect")
 	b.WriteString("(* " + p.pos(dh) + " *)\n")
-	b.WriteString("Definition gen_default_grace (H : Z) : Z := " + clampedRole(p, dh, argIdent(dh, []string{"time.AfterFunc"}, 0), "gracePeriod", map[string]string{".cfg.HeartbeatInterval": "H", ".cfg.DisconnectGracePeriod": "0"}, token.ASSIGN) + ".\n\n")
+	b.WriteString("Definition gen_default_grace (H : Z) : Z := " + roleDuration(p, dh, []string{"time.AfterFunc"}, 0, "gracePeriod", map[string]string{".cfg.HeartbeatInterval": "H", ".cfg.DisconnectGracePeriod": "0"}, token.ASSIGN) + ".\n\n")
 
 	wl := p.fn("kvElection.watchLoop")
 	b.WriteString("(* " + p.pos(wl) + " *)\n")
@@ -467,7 +498,7 @@ func genGuards(p *pkgInfo) string {
 	}
 	b.WriteString("Definition gen_val_max_failures : Z := " + intAssign(p, vl, valThr) + ".\n")
 	// the time-out of one validation read, as a function of the heartbeat interval
-	b.WriteString("Definition gen_val_read_timeout (H : Z) : Z := " + clampedRole(p, vl, argIdent(vl, []string{"context.WithTimeout"}, 1), "validationTimeout", hv, token.DEFINE) + ".\n\n")
+	b.WriteString("Definition gen_val_read_timeout (H : Z) : Z := " + roleDuration(p, vl, []string{"context.WithTimeout"}, 1, "validationTimeout", hv, token.DEFINE) + ".\n\n")
 
 	vr := p.fn("kvElection.verifyLeadershipAfterReconnect")
 	b.WriteString("(* " + p.pos(vr) + " *)\n")
